@@ -165,12 +165,16 @@ theorem Q_progress (w : World) (h : Q w) : Q (progress w) := by
   obtain ⟨a, _, _, _, _, b, c, _⟩ := view_loopReact (runTasks (w.taskQ.length + 1) w)
   exact Q_of_eq a c b h1
 
+theorem Q_connectFailed (w : World) (k : Nat) (h : Q w) : Q (connectFailed w k) := by
+  obtain ⟨_, _, h3, h4, h5, _⟩ := connectFailed_frame w k
+  exact Q_of_eq h3 h5 h4 h
+
 theorem Q_step (w : World) (e : Ev) (h : Q w) : Q (step w e) := by
   cases e with
   | start => simp only [step]; split <;> exact h
   | app r => simp only [step]; split; exact h; exact Q_progress _ h
   | dialOk i => simp only [step]; split <;> exact h
-  | dialFail => simp only [step]; split <;> exact h
+  | dialFail => simp only [step]; split <;> (try split) <;> exact h
   | connackOk sp inb =>
     cases hph : w.phase with
     | connackGate k =>
@@ -180,12 +184,12 @@ theorem Q_step (w : World) (e : Ev) (h : Q w) : Q (step w e) := by
     | _ => simp only [step, hph]; exact h
   | connackRefused =>
     simp only [step]; split
-    · exact Q_progress _ h
+    · exact Q_progress _ (Q_connectFailed _ _ h)
     · exact h
   | connackNever =>
     simp only [step]; split
     · split
-      · exact Q_progress _ h
+      · exact Q_progress _ (Q_connectFailed _ _ h)
       · exact h
     · exact h
   | peerClose =>
@@ -569,5 +573,115 @@ theorem loopReact_redial (w : World) (k : Nat) (hp : w.phase = .up k) (hd : (get
                            dials := w.dials + 1 } := by
   unfold loopReact
   simp only [hp, hd, hs, Bool.false_eq_true, if_false]
+
+/-! ### after Disconnect the reconnect loop never dials again (true of the refined model) -/
+
+theorem progress_stopped (w : World) (hs : w.stopped = true) :
+    (progress w).dials = w.dials ∧ (progress w).stopped = true := by
+  unfold progress
+  have hv := view_runTasks (w.taskQ.length + 1) w
+  generalize runTasks (w.taskQ.length + 1) w = w1 at hv
+  simp only [view, View.mk.injEq] at hv
+  obtain ⟨_, _, _, _, _, p6, p7, _⟩ := hv
+  unfold loopReact
+  split
+  · split
+    · exact ⟨p6, p7.trans hs⟩
+    · rw [if_pos (p7.trans hs)]; exact ⟨p6, p7.trans hs⟩
+  · exact ⟨p6, p7.trans hs⟩
+
+theorem deliverInbound_dials (w : World) (k m q : Nat) : (deliverInbound w k m q).dials = w.dials := by
+  unfold deliverInbound
+  dsimp only
+  split
+  · rfl
+  · split <;> split <;> simp [logPkt, setConn]
+
+theorem deliverAll_dials (k : Nat) (inb : List (Nat × Nat)) (w : World) : (deliverAll w k inb).dials = w.dials := by
+  induction inb generalizing w with
+  | nil => rfl
+  | cons a rest ih => exact (ih (deliverInbound w k a.1 a.2)).trans (deliverInbound_dials w k a.1 a.2)
+
+theorem afterConnack_stopped (w : World) (sp : Bool) (k : Nat) (hs : w.stopped = true) :
+    (afterConnack w sp k).dials = w.dials ∧ (afterConnack w sp k).stopped = true := by
+  unfold afterConnack
+  dsimp only
+  have hc : ¬ (w.initialized = true ∧ (¬ sp = true ∨ w.cfg.always = true) ∧ ¬ w.stopped = true) :=
+    fun h => h.2.2 hs
+  rw [if_neg hc]; simp [hs]
+
+theorem step_stopped (w : World) (e : Ev) (hs : w.stopped = true) (hp : w.phase ≠ .idle) :
+    (step w e).dials = w.dials ∧ (step w e).stopped = true ∧ (step w e).phase ≠ .idle := by
+  have hph : ∀ W : World, W.phase ≠ .idle → (progress W).phase ≠ .idle := by
+    intro W hW h
+    unfold progress loopReact at h
+    have hv := view_runTasks (W.taskQ.length + 1) W
+    generalize runTasks (W.taskQ.length + 1) W = w1 at hv h
+    simp only [view, View.mk.injEq] at hv
+    obtain ⟨_, _, _, _, p5, _⟩ := hv
+    split at h
+    · split at h
+      · rw [h] at p5; exact hW p5.symm
+      · split at h <;> cases h
+    · rw [h] at p5; exact hW p5.symm
+  cases e with
+  | start => simp only [step]; rw [if_neg hp]; exact ⟨rfl, hs, hp⟩
+  | app r => simp only [step]; rw [if_pos hs]; exact ⟨rfl, hs, hp⟩
+  | dialOk i =>
+    simp only [step]; split
+    · exact ⟨rfl, hs, hp⟩
+    · exact ⟨rfl, hs, by simp⟩
+  | dialFail =>
+    simp only [step]; split
+    · exact ⟨rfl, hs, hp⟩
+    · first
+        | exact ⟨rfl, hs, by simp⟩
+        | (split
+           · exact ⟨rfl, hs, by simp⟩
+           · next h => exact absurd hs h)
+  | connackOk sp inb =>
+    cases hph' : w.phase with
+    | connackGate k =>
+      rw [connackOk_step w k sp inb hph']
+      have hst : (deliverAll { setConn w k { getConn w k with connected := true } with
+          broker := if sp then w.broker else w.broker.clearSession } k inb).stopped = true :=
+        (deliverAll_stopped k inb _).trans hs
+      obtain ⟨a1, a2⟩ := afterConnack_stopped _ sp k hst
+      obtain ⟨b1, b2⟩ := progress_stopped _ a2
+      refine ⟨b1.trans (a1.trans (deliverAll_dials k inb _)), b2, hph _ ?_⟩
+      rw [(afterConnack_frame _ sp k).2.2.2.1, if_pos hst]; simp
+    | _ =>
+      rw [show step w (.connackOk sp inb) = w by simp only [step, hph']]
+      exact ⟨rfl, hs, hp⟩
+  | connackRefused =>
+    simp only [step]; split
+    · next k _ =>
+      obtain ⟨_, _, _, _, _, _, _, c8, c9, c10⟩ := connectFailed_frame w k
+      obtain ⟨b1, b2⟩ := progress_stopped _ (c9.trans hs)
+      exact ⟨b1.trans (by rw [c10, if_pos hs]), b2, hph _ (by rw [c8, if_pos hs]; simp)⟩
+    · exact ⟨rfl, hs, hp⟩
+  | connackNever =>
+    simp only [step]; split
+    · next k _ =>
+      split
+      · obtain ⟨_, _, _, _, _, _, _, c8, c9, c10⟩ := connectFailed_frame w k
+        obtain ⟨b1, b2⟩ := progress_stopped _ (c9.trans hs)
+        exact ⟨b1.trans (by rw [c10, if_pos hs]), b2, hph _ (by rw [c8, if_pos hs]; simp)⟩
+      · exact ⟨rfl, hs, hp⟩
+    · exact ⟨rfl, hs, hp⟩
+  | peerClose =>
+    simp only [step]; split
+    · next k _ =>
+      obtain ⟨b1, b2⟩ := progress_stopped (kill w k) hs
+      exact ⟨b1, b2, hph _ hp⟩
+    · exact ⟨rfl, hs, hp⟩
+  | inbound m q =>
+    simp only [step]; split
+    · next k _ =>
+      exact ⟨deliverInbound_dials w k m q, (deliverInbound_stopped w k m q).trans hs,
+        by rw [(deliverInbound_frame w k m q).2.2.2.2.2]; exact hp⟩
+    · exact ⟨rfl, hs, hp⟩
+  | handle h => simp only [step]; split <;> exact ⟨rfl, hs, hp⟩
+  | disconnect => simp only [step]; rw [if_pos hs]; exact ⟨rfl, hs, hp⟩
 
 end Mqtt.Retry
